@@ -1,0 +1,48 @@
+//go:build verif
+
+// Contracts for the verification machinery under /verif (contract-based deductive
+// verification). This file is comment-only, is excluded from every normal build by the
+// "verif" build tag, and declares nothing. See /verif/DESIGN.md §4.
+
+package reference
+
+// C19: parsing a Reference.reference string never crashes: every string is either parsed or
+// rejected with ErrInvalidURI. A parsed literal is exactly one of fragment / REST identity /
+// non-REST URI; a service base URL only accompanies an identity, and an identity always
+// comes with its type (the representation invariant URIString relies on).
+// (the REST pattern has six capturing groups; the relative part is the fourth)
+//@ func LiteralInfoFromURI(uri) (res, err)
+//@   requires reNumSub(restFHIRServiceResourceURLRegex) == 6
+//@   ensures (err == nil) == (res != nil)
+//@   ensures err != nil ==> is(err, ErrInvalidURI)
+//@   ensures uri == "" ==> err != nil
+//@   ensures err == nil && uri[0] == 35 ==> res.fragmentID != nil && res.identity == nil && res.nonRESTURI == nil && res.serviceBaseURL == ""
+//@   ensures err == nil ==> (res.fragmentID != nil) != ((res.identity != nil) != (res.nonRESTURI != nil))
+//@   ensures err == nil ==> !(res.fragmentID != nil && res.identity != nil && res.nonRESTURI != nil)
+//@   ensures err == nil && res.serviceBaseURL != "" ==> res.identity != nil
+//@   ensures err == nil && res.identity != nil ==> res.resType != nil
+
+//@ func IdentityFromURL(url) (res, err)
+//@   requires reNumSub(restFHIRServiceResourceURLRegex) == 6
+//@   ensures (err == nil) == (res != nil)
+//@   ensures url == "" ==> err != nil
+//@ func IdentityFromAbsoluteURL(url) (res, err)
+//@   requires reNumSub(restFHIRServiceResourceURLRegex) == 6
+//@   ensures (err == nil) == (res != nil)
+//@   ensures url == "" ==> err != nil
+
+// C19: a relative reference has two parts (Type/id) or four (Type/id/_history/version); the
+// identity carries exactly those parts; anything else is ErrInvalidRelativeURI or a bad type
+//@ func IdentityFromRelativeURI(uri) (res, err)
+//@   let n = splitLen(uri, "/")
+//@   ensures (err == nil) == (res != nil)
+//@   ensures n == 2 && err == nil ==> string(res.typeName) == splitAt(uri, "/", 0) && res.id == splitAt(uri, "/", 1) && res.version == ""
+//@   ensures n == 4 && err == nil ==> splitAt(uri, "/", 2) == "_history" && string(res.typeName) == splitAt(uri, "/", 0) && res.id == splitAt(uri, "/", 1) && res.version == splitAt(uri, "/", 3)
+//@   ensures n != 2 && n != 4 ==> is(err, ErrInvalidRelativeURI)
+//@   ensures n == 4 && splitAt(uri, "/", 2) != "_history" ==> is(err, ErrInvalidRelativeURI)
+
+// C19: formatting is total and prefers fragment, then identity (with the base URL in front),
+// then the non-REST URI
+//@ func (lit *LiteralInfo) URIString() (res)
+//@   ensures lit == nil ==> res == ""
+//@   ensures lit != nil && lit.fragmentID == nil && lit.identity == nil && lit.nonRESTURI == nil ==> res == ""
